@@ -51,7 +51,7 @@ class Query:
             for c in self.cubes:
                 for vals in itertools.product(*doms):
                     d = dict(c)
-                    d['_fixed'] = dict(zip([p.name for p in sp], vals))
+                    d['_fixed'] = dict(c.get('_fixed', {}), **dict(zip([p.name for p in sp], vals)))
                     cubes.append(d)
             self.cubes = cubes
             self.params = [p for p in self.params if p.name not in self.split]
